@@ -288,6 +288,9 @@ TEMPLATES = {
     "closure_factory": lambda r: dict(method=False, m_src=
         "def make_m(kf, rr):\n    @mark\n    def m(v10: Trig, v11: object):\n        return (rr(v11 + kf, kf), " + _site(r, "kf", "v11").replace("recurse(", "rr(") +
         ")\n    return m\nREGISTER(fself, make_m(eff(1, 4), recurse))"),
+    "closure_sorted_after": lambda r: dict(method=False, m_src=
+        "def make_m(rr, zz, aa):\n    @mark\n    def m(v10: Trig, v11: object):\n        return (aa, zz, rr(v11 + zz, aa), " + _site(r, "zz", "v11").replace("recurse(", "rr(") +
+        ", zz + aa)\n    return m\nREGISTER(fself, make_m(recurse, eff(1, 4), eff(2, 1)))"),
     "closure_counter": lambda r: dict(method=False, m_src=
         "def make_m():\n    count = [0]\n    @mark\n    def m(v10: Trig, v11: object):\n        count[0] += 1\n        return (count[0], " + _site(r, "count[0]", "v11") +
         ", [recurse(count[0] + a, a) for a in v13])\n    return m\nREGISTER(fself, make_m())"),
@@ -422,7 +425,7 @@ def run(ctx):
     finally:
         shutil.rmtree(work, ignore_errors=True)
     return {"evaluations": stats["evaluations"], "distinct_nontrivial": len(stats["distinct"]),
-            "rule": "translation validation: random straight-line method bodies over the modelled grammar (every expression context; awkward placements -- *, **, positional-by-keyword, repeated keyword, bare symbols, symbol-named binders -- with small probability), 4 parameter shapes (function / method, type[...] positions, positional-only, keyword-only), distinct non-trivial = distinct bodies containing a recurse / call_next call; behaviour: random bodies of the executable sub-grammar registered in a real function / class next to 10 leaf methods, distinct by (body, argument, method?); templates: 27 hand-written contexts outside the grammar with randomised call sites",
+            "rule": "translation validation: random straight-line method bodies over the modelled grammar (every expression context; awkward placements -- *, **, positional-by-keyword, repeated keyword, bare symbols, symbol-named binders -- with small probability), 4 parameter shapes (function / method, type[...] positions, positional-only, keyword-only), distinct non-trivial = distinct bodies containing a recurse / call_next call; behaviour: random bodies of the executable sub-grammar registered in a real function / class next to 10 leaf methods, distinct by (body, argument, method?); templates: 28 hand-written contexts outside the grammar with randomised call sites",
             "samples": stats["samples"], "programs": stats["tv_programs"], "disagreements_checked": stats["tv_programs"],
             "tv_rewritten_ast_equal_to_model": stats["tv_ast_equal"], "tv_usage_errors_agreeing": stats["tv_usage_error"],
             "tv_invalid_originals_agreeing": stats["tv_invalid_original"], "tv_valid_and_in_domain": stats["tv_in_domain"], "tv_kf11_hits": stats["tv_kf11"],
